@@ -449,6 +449,7 @@ def compare(path, model, qspecs_list, ctx):
         ctx.label("moving joint frame within 2e-5 of a half turn")
     static_band = [a for e in model.chain for a in map(abs, e["rpy"]) if BAND_LO < a < BAND_HI]
     static_band += [a for a in frame_angles if BAND_LO < a < BAND_HI]
+    buf = None
     for q in joint_vectors(qspecs_list, [model.q_range(e) for e in model.moving]):
         k = len(static_band) + sum(1 for v in q if BAND_LO < abs(v) < BAND_HI)
         want = model.fk(q)
@@ -465,7 +466,13 @@ def compare(path, model, qspecs_list, ctx):
             if q[i] == lo or q[i] == hi:
                 ctx.label("q on a limit")
                 break
-        res = sut(arm.FK, q.copy())
+        # the joint vectors of one case are handed over in ONE buffer that is rewritten in place between calls (a
+        # jogging loop): "for all joint values" is about the values in the array at the time of the call
+        if buf is None or buf.shape != q.shape:
+            buf = np.array(q, dtype=float, copy=True)
+        else:
+            buf[:] = q
+        res = sut(arm.FK, buf)
         got = np.asarray(sut(res.gTM), dtype=float)
         if got.shape != (4, 4) or not np.all(np.isfinite(got)):
             raise Violation("FK result shape %s / non-finite" % (got.shape,))
